@@ -155,7 +155,12 @@ def ipaddress_from_sdp(sdp: str) -> str:
 
 
 def ipaddress_to_sdp(addr: str) -> str:
-    version = ipaddress.ip_address(addr).version
+    try:
+        version = ipaddress.ip_address(addr).version
+    except ValueError:
+        # Not an address literal: RFC 4566 also allows a FQDN here,
+        # and `ipaddress_from_sdp` accepts one.
+        version = 4
     return f"IN IP{version} {addr}"
 
 
